@@ -1,10 +1,28 @@
 /-
-  C20 - property theorems (statements only live here; helper lemmas in Proofs/).
+  C20 - property theorems (statements only live here; helper lemmas in Proofs/Str*.lean).
+
+  "For every byte string ... encoder.Quote produces a JSON string literal that decodes back to the input;
+   unquote.String decodes every escape sequence exactly as encoding/json does (surrogate pairs combined, lone
+   surrogates replaced or rejected according to the option, malformed escapes rejected) and copies all other
+   bytes unchanged; encoder.HTMLEscape ... preserves the destination prefix; utf8.Validate/CorrectWith agree
+   with unicode/utf8 and with byte-wise U+FFFD replacement."
+
+  Every theorem quantifies over all byte strings (no bound).  The definitions they are about are the
+  transliterations in Model/Str*.lean; `LitBody`, `Denotes`, `hasLSPS`, `isScalar`, `encodeAll` (Model/StrSpec.lean,
+  Model/StrUtf8.lean) are the independent specifications.
 -/
 import SonicSpec.Model.Str
+import SonicSpec.Model.StrSpec
 import SonicSpec.Proofs.U8
+import SonicSpec.Proofs.StrQuote
+import SonicSpec.Proofs.StrDenote
+import SonicSpec.Proofs.StrHtml
+import SonicSpec.Proofs.StrUtf8
+import SonicSpec.Proofs.StrHtmlDenote
 namespace SonicSpec.Props.C20
 open SonicSpec SonicSpec.Str
+
+/-! ## quote -/
 
 /-- no image of a byte contains a raw quote character except as the byte after a backslash,
     and no image contains a raw control character -/
@@ -14,5 +32,197 @@ theorem quoteByte_clean (c : UInt8) :
   revert c
   apply forall_uint8
   decide +kernel
+
+/-- Quote followed by unquote is the identity on every byte string, with either setting of the
+    replace-lone-surrogates option -/
+theorem unquote_quote (unirep : Bool) (s : Bytes) : unquote unirep false (quoteBody s) = .ok s :=
+  unquote_quoteBody unirep s
+
+example : unquote true false (quoteBody [34, 0, 255, 92, 10]) = .ok [34, 0, 255, 92, 10] := by decide +kernel
+
+/-- the same in double mode: what a `,string` field is encoded as (spec.go:64, double = true) is read back
+    by the one-pass double unquote (unquote.c with F_DOUBLE_UNQUOTE) -/
+theorem unquoteD_quoteD (unirep : Bool) (s : Bytes) : unquote unirep true (quoteBodyD s) = .ok s :=
+  unquote_quoteBodyD unirep s
+
+example : unquote false true (quoteBodyD [34, 0, 92, 9, 200]) = .ok [34, 0, 92, 9, 200] := by decide +kernel
+
+/-- double quoting is quoting twice, literally -/
+theorem quoteD_eq_quote_quote (s : Bytes) : quoteD s = quote (quote s) := by
+  unfold quoteD quote
+  rw [quoteBodyD_eq]
+  simp [quoteBody, quoteByte]
+
+/-- ... and is therefore also read back by unquoting twice (what encoding/json does for `,string`) -/
+theorem unquoteTwice_quoteD (unirep : Bool) (s : Bytes) : unquoteTwice unirep (quoteBodyD s) = .ok s :=
+  unquoteTwice_quoteBodyD unirep s
+
+/-- `encoder.Quote s` is a JSON string literal: it begins and ends with a quote, and the body obeys the
+    grammar (no raw quote, no control byte, every backslash starts a legal escape) -/
+theorem quote_is_literal (s : Bytes) : ∃ b, quote s = 34 :: (b ++ [34]) ∧ LitBody b :=
+  ⟨quoteBody s, rfl, litBody_quoteBody s⟩
+
+/-- ... whose denotation (independent specification `Denotes`) is the input -/
+theorem quote_denotes_input (unirep : Bool) (s : Bytes) :
+    ∃ b, quote s = 34 :: (b ++ [34]) ∧ LitBody b ∧ Denotes unirep b s :=
+  ⟨quoteBody s, rfl, litBody_quoteBody s, unquote_sound' unirep _ s (unquote_quoteBody unirep s)⟩
+
+example : ∃ b, quote [97, 34] = 34 :: (b ++ [34]) ∧ LitBody b := quote_is_literal _
+
+/-- the executable check the driver applies to sonic's output decides the literal grammar -/
+theorem litBodyOk_iff (b : Bytes) : litBodyOk b = true ↔ LitBody b :=
+  ⟨litBodyOk_sound' b.length b (Nat.le_refl _), litBodyOk_of_LitBody⟩
+
+/-- every string literal body has a denotation when lone surrogates are replaced (nothing that the
+    grammar admits is rejected by `unquote.String`) -/
+theorem literal_has_denotation (b : Bytes) (h : LitBody b) : ∃ o, unquote true false b = .ok o := by
+  obtain ⟨o, ho⟩ := litBody_denotes' b.length b (Nat.le_refl _) h
+  exact ⟨o, unquote_complete' ho⟩
+
+/-- spec.go:64 restartable loop: whatever free space the successive native calls find, the bytes are those
+    of `quote` (single and double table) -/
+theorem quoteLoop_any_capacity (rooms : List Nat) (s : Bytes) :
+    quoteLoop quoteByte rooms [34] s ++ [34] = quote s ∧
+    quoteLoop quoteByteD rooms [34, 92, 34] s ++ [92, 34, 34] = quoteD s := by
+  constructor
+  · rw [quoteLoop_eq]; simp [quote, quoteBody]
+  · rw [quoteLoop_eq]; simp [quoteD, quoteBodyD]
+
+example : quoteLoop quoteByte [3, 0, 1] [34] [0, 0, 97] ++ [34] = quote [0, 0, 97] := by decide +kernel
+
+/-! ## unquote against the inductive specification -/
+
+/-- soundness: what `unquote` (single mode, either option) returns is the denotation of the input -/
+theorem unquote_sound (unirep : Bool) (s o : Bytes) (h : unquote unirep false s = .ok o) : Denotes unirep s o :=
+  unquote_sound' unirep s o h
+
+/-- completeness: every body that has a denotation is decoded to it -/
+theorem unquote_complete (unirep : Bool) (s o : Bytes) (h : Denotes unirep s o) : unquote unirep false s = .ok o :=
+  unquote_complete' h
+
+theorem unquote_iff_denotes (unirep : Bool) (s o : Bytes) : unquote unirep false s = .ok o ↔ Denotes unirep s o :=
+  ⟨unquote_sound unirep s o, unquote_complete unirep s o⟩
+
+/-- malformed input (no denotation: bad escape letter, bad hex digit, truncated escape, and without the
+    replace option a lone surrogate) is exactly what is rejected -/
+theorem unquote_rejects_iff (unirep : Bool) (s : Bytes) :
+    (∃ e, unquote unirep false s = .error e) ↔ ¬ ∃ o, Denotes unirep s o := by
+  constructor
+  · rintro ⟨e, he⟩ ⟨o, ho⟩
+    rw [unquote_complete unirep s o ho] at he
+    cases he
+  · intro h
+    cases hu : unquote unirep false s with
+    | error e => exact ⟨e, rfl⟩
+    | ok o => exact absurd ⟨o, unquote_sound unirep s o hu⟩ h
+
+/-- the specification is functional -/
+theorem denotes_unique (unirep : Bool) (s o₁ o₂ : Bytes) (h₁ : Denotes unirep s o₁) (h₂ : Denotes unirep s o₂) :
+    o₁ = o₂ := by
+  have a := unquote_complete unirep s o₁ h₁
+  rw [unquote_complete unirep s o₂ h₂] at a
+  cases a; rfl
+
+-- a surrogate pair is combined, a lone half is replaced or rejected according to the option,
+-- a malformed escape is rejected, other bytes are copied
+example : unquote true false [92, 117, 100, 56, 51, 100, 92, 117, 100, 101, 48, 48] = .ok [240, 159, 152, 128] := by
+  decide +kernel
+example : Denotes true [92, 117, 100, 56, 48, 48, 120] [239, 191, 189, 120] :=
+  unquote_sound true _ _ (by decide +kernel)
+example : unquote false false [92, 117, 100, 56, 48, 48, 120] = .error .unicode := by decide +kernel
+example : ¬ ∃ o, Denotes true [92, 113] o :=
+  (unquote_rejects_iff true _).mp ⟨.escape, by decide +kernel⟩
+example : unquote true false [200, 1, 34] = .ok [200, 1, 34] := by decide +kernel
+
+/-! ## HTML escaping -/
+
+/-- `encoder.HTMLEscape(dst, src)`: the destination prefix is preserved and what is appended does not
+    depend on it -/
+theorem htmlEscape_preserves_prefix (dst src : Bytes) : htmlEscapeInto dst src = dst ++ htmlEscape src := by
+  unfold htmlEscapeInto
+  exact htmlLoop_eq [] dst src
+
+/-- spec.go:124 restartable loop: the same for every sequence of free capacities the native calls meet
+    (output buffers that fill up mid-string, mid-escape) -/
+theorem htmlLoop_any_capacity (rooms : List Nat) (dst src : Bytes) :
+    htmlLoop rooms dst src = dst ++ htmlEscape src :=
+  htmlLoop_eq rooms dst src
+
+example : htmlLoop [2, 5, 0, 7] [1, 2] [60, 97, 226, 128, 168] = [1, 2] ++ htmlEscape [60, 97, 226, 128, 168] := by
+  decide +kernel
+
+/-- the output contains no `<`, `>`, `&` and nowhere the UTF-8 form of U+2028 or U+2029 -/
+theorem htmlEscape_no_special (s : Bytes) :
+    (∀ b ∈ htmlEscape s, b ≠ 60 ∧ b ≠ 62 ∧ b ≠ 38) ∧
+    ¬ [226, 128, 168] <:+: htmlEscape s ∧ ¬ [226, 128, 169] <:+: htmlEscape s := by
+  refine ⟨htmlEscape_mem s, ?_, ?_⟩
+  · rintro ⟨pre, suf, h⟩
+    have := hasLSPS_of_infix (htmlEscape s) pre suf 168 (Or.inl rfl) (by rw [← h]; simp)
+    rw [htmlEscape_noLSPS] at this
+    cases this
+  · rintro ⟨pre, suf, h⟩
+    have := hasLSPS_of_infix (htmlEscape s) pre suf 169 (Or.inr rfl) (by rw [← h]; simp)
+    rw [htmlEscape_noLSPS] at this
+    cases this
+
+/-- escaping a string body does not change what it denotes; in particular a body that `unquote` accepts is
+    still accepted, with the same result, after HTML escaping (EscapeHTML cannot corrupt a string) -/
+theorem htmlEscape_unquote_invariant (unirep : Bool) (b o : Bytes) (h : unquote unirep false b = .ok o) :
+    unquote unirep false (htmlEscape b) = .ok o :=
+  unquote_complete' (denotes_htmlEscape unirep b.length b o (Nat.le_refl _) (unquote_sound' unirep b o h))
+
+example : unquote true false (htmlEscape [60, 92, 110, 226, 128, 168, 38]) = .ok [60, 10, 226, 128, 168, 38] :=
+  htmlEscape_unquote_invariant true _ _ (by decide +kernel)
+
+example : htmlEscape [60, 226, 128, 169, 226, 128] = [92, 117, 48, 48, 51, 99, 92, 117, 50, 48, 50, 57, 226, 128] := by
+  decide +kernel
+
+/-! ## UTF-8 -/
+
+/-- `utf8.Validate` accepts exactly the encodings of sequences of Unicode scalar values
+    (which is what unicode/utf8.Valid accepts) -/
+theorem utf8_valid_iff (s : Bytes) :
+    validate s = true ↔ ∃ cps : List Nat, (∀ c ∈ cps, isScalar c = true) ∧ encodeAll cps = s := by
+  constructor
+  · exact exists_of_validate s
+  · rintro ⟨cps, hs, rfl⟩
+    exact validate_encodeAll cps hs
+
+example : validate [206, 186, 240, 159, 152, 128, 97] = true := by decide +kernel
+example : validate [237, 160, 128] = false := by decide +kernel      -- a surrogate
+example : validate [192, 128] = false := by decide +kernel           -- overlong
+example : validate [244, 144, 128, 128] = false := by decide +kernel -- above U+10FFFF
+example : validate [226, 130] = false := by decide +kernel           -- truncated
+
+/-- `utf8.CorrectWith` with a well-formed replacement returns well-formed bytes -/
+theorem correctWith_valid (repl s : Bytes) (h : validate repl = true) : validate (correctWith repl s) = true := by
+  obtain ⟨rc, hr, hre⟩ := exists_of_validate repl h
+  obtain ⟨cps, hs, he⟩ := exists_of_correctWith repl rc hr hre s
+  rw [← he]
+  exact validate_encodeAll cps hs
+
+/-- ... and is the identity on well-formed input -/
+theorem correctWith_id_on_valid (repl s : Bytes) (h : validate s = true) : correctWith repl s = s :=
+  correctWith_id_of_validate repl s h
+
+/-- byte-wise replacement: a byte at which no well-formed sequence starts is replaced alone, a well-formed
+    sequence is copied whole (the rule unicode/utf8.DecodeRune implements with RuneError, width 1) -/
+theorem correctWith_bytewise (repl : Bytes) (b : UInt8) (t : Bytes) :
+    correctWith repl (b :: t) =
+      if seqLen (b :: t) = 0 then repl ++ correctWith repl t
+      else (b :: t).take (seqLen (b :: t)) ++ correctWith repl ((b :: t).drop (seqLen (b :: t))) := by
+  rw [correctWith_cons]
+  by_cases h : seqLen (b :: t) = 0 <;> simp [h]
+
+/-- utf8.go:30: recording the ill-formed positions in a list of bounded capacity `k` (MAX_RECURSE = 4096
+    in the real code) and restarting the native call when it is full gives the same bytes -/
+theorem correctChunked_eq (repl : Bytes) (k : Nat) (hk : 0 < k) (s : Bytes) :
+    correctChunked repl k (s.length + 1) s = correctWith repl s :=
+  correctChunked_eq_correctWith repl k hk (s.length + 1) s (Nat.lt_succ_self _)
+
+example : correctChunked [63] 2 6 [255, 255, 255, 97, 255] = [63, 63, 63, 97, 63] := by decide +kernel
+
+example : correctWith [63] [97, 255, 226, 130, 98] = [97, 63, 63, 63, 98] := by decide +kernel
+example : correctWith fffd [237, 160, 128] = fffd ++ fffd ++ fffd := by decide +kernel
 
 end SonicSpec.Props.C20
